@@ -6,6 +6,7 @@ import ZygoVerif.Model.SQ
 import ZygoVerif.Model.MacroCall
 import ZygoVerif.Spec.Subst
 import ZygoVerif.Driver.Proto
+import ZygoVerif.Generated.SQCtx
 namespace ZygoVerif.Driver.Sq
 open ZygoVerif.SQ ZygoVerif.Subst
 
@@ -307,7 +308,8 @@ def handle (toks : List String) : String :=
         | some (.list progPTs none, []), some ((name, mac) :: more) =>
           let tab := (name, mac) :: more
           let E : CEnv := { mkHash := mkHashD, macros := fun f => (tab.find? (fun p => p.1 == f)).map (·.2),
-                            builtin := fun f => builtinNames.contains f }
+                            builtin := fun f => builtinNames.contains f,
+                            scanExpansions := Generated.SQCtx.rebindScansExpansions }
           let args := argPTs.map PT.toSexp
           let prog := progPTs.map PT.toSexp
           let call := Sexp.cons (.atom (.sym name)) (mkList args)
